@@ -1,3 +1,4 @@
 pub mod canon;
 pub mod tree;
 pub mod validate;
+pub mod syntax;
